@@ -15,6 +15,7 @@ import tempfile
 from .. import common, e4
 
 PROP = "C11"
+JUNK = b"JUNK left by a killed writer " * 3
 OLD_MTIME = 1_000_000_000  # 2001-09-09: distinctive "previous value" time
 
 
@@ -76,9 +77,10 @@ def cases():
                 continue
             for pl in (False, True):
                 for prev in (False, True):
-                    if kind == "touch" and prev and not bad:
-                        pass
                     out.append({"kind": kind, "value_name": n, "pathlib": pl, "prev": prev, "bad": bad})
+            # a staging file with foreign content left behind by a killed process (of any writer) is already there
+            out.append({"kind": kind, "value_name": n, "pathlib": False, "prev": True, "bad": bad, "junk": True})
+            out.append({"kind": kind, "value_name": n, "pathlib": True, "prev": False, "bad": bad, "junk": True})
     return out, vals
 
 
@@ -128,6 +130,9 @@ def _run_case(case):
                 w(prevv)
                 os.utime(p, (OLD_MTIME, OLD_MTIME))
                 prev_bytes = e4.read_bytes(p)
+            if case.get("junk"):
+                with e4._real_open(os.path.join(d, "target.dat.STAGING"), "wb") as fh:
+                    fh.write(JUNK)
             return d, p, prev_bytes
 
         # ---- pass 0: fault-free, records the operation list and the complete new content
@@ -151,9 +156,14 @@ def _run_case(case):
             if err is not None:
                 viols.append(("ref-write-failed", f"fault-free write raised {err!r}"))
                 return {"evals": 1, "ops": ops, "viols": viols, "combos": 0}
-            back = r()
-            if back != value or type(back) is not type(value):
-                viols.append(("ref-roundtrip", f"read after write gave {back!r}"))
+            try:
+                back = r()
+                if back != value or type(back) is not type(value):
+                    viols.append(("ref-roundtrip", f"read after a fault-free write gave {back!r}"))
+            except Exception as e:  # noqa
+                viols.append(("ref-roundtrip", f"read after a fault-free write raised {e!r} (target holds {_short(e4.read_bytes(p))})"))
+            if new_bytes is not None and [f for f in e4.listing(d) if f != "target.dat"]:
+                viols.append(("ref-litter", f"a fault-free write left {[f for f in e4.listing(d) if f != 'target.dat']} behind"))
         evals += 1
         # ---- faults at every operation index
         for k, (opkind, detail) in enumerate(ops):
@@ -237,6 +247,8 @@ def _oracle(case, tag, d, p, prev_bytes, new_bytes, outcome, err, viols, where):
             viols.append((f"silent-loss {w}", f"write returned normally although a fault was injected at {where} and the target does not hold the new value"))
     if outcome == "exception":
         extra = [f for f in ls if f != "target.dat"]
+        if case.get("junk") and extra == ["target.dat.STAGING"] and e4.read_bytes(os.path.join(d, extra[0])) == JUNK:
+            extra = []  # the foreign staging file that was there before the write, untouched: not left by this write
         if extra:
             viols.append((f"staging-left {w}", f"write failed by exception at {where} but left {extra} behind"))
         if prev_bytes is None and cur is not None and new_bytes is not None and cur == new_bytes and where[1] in ("before", "base"):
